@@ -45,6 +45,7 @@ from mashumaro.mixins.orjson import DataClassORJSONMixin
 from mashumaro.mixins.msgpack import DataClassMessagePackMixin
 from mashumaro.mixins.yaml import DataClassYAMLMixin
 from mashumaro.mixins.toml import DataClassTOMLMixin
+import orjson
 
 T = TypeVar("T")
 U = TypeVar("U")
@@ -53,14 +54,14 @@ class Opaque:
     """a type neither mashumaro nor its JSON Schema builder supports"""
 
 
-def _ser_slash(d):
+def _ser_slash(d: date) -> str:
     return d.strftime("%Y/%m/%d")
-def _de_slash(s):
+def _de_slash(s: str) -> date:
     y, m, dd = str(s).split("/")
     return date(int(y), int(m), int(dd))
-def _ser_ord(d):
+def _ser_ord(d: date) -> int:
     return d.toordinal()
-def _de_ord(n):
+def _de_ord(n: int) -> date:
     if type(n) is not int:
         raise ValueError(n)
     return date.fromordinal(n)
@@ -173,13 +174,15 @@ def render_config(cfg, strip_lazy=False, extra_dialect=None) -> list:
         body.append(f"dialect = {dialect}")
     for opt in ("omit_none", "omit_default", "serialize_by_alias", "namedtuple_as_dict",
                 "forbid_extra_keys", "sort_keys", "allow_deserialization_not_by_alias",
-                "allow_postponed_evaluation"):
+                "allow_postponed_evaluation"):  # (orjson_options rendered below)
         if cfg.get(opt) is not None:
             body.append(f"{opt} = {bool(cfg[opt])}")
     if cfg.get("aliases"):
         body.append("aliases = " + repr(dict(cfg["aliases"])))
     if cfg.get("discriminator"):
         body.append("discriminator = " + render_discr(cfg["discriminator"]))
+    if cfg.get("orjson_options"):
+        body.append("orjson_options = " + " | ".join("orjson." + o for o in cfg["orjson_options"]))
     if cfg.get("date"):
         body.append(f"serialization_strategy = {{date: {DATE_STRATEGIES[cfg['date']]}}}")
     if not body:
@@ -203,6 +206,16 @@ HOOKS = {
                 "    TRACE.append(('post_de', cls.__name__))",
                 "    return obj"],
 }
+
+
+class _Raw:
+    """repr() is the raw source text (for function names inside metadata dicts)"""
+
+    def __init__(self, text):
+        self.text = text
+
+    def __repr__(self):
+        return self.text
 
 
 def render_class(c, defined=None, strip_lazy=False, twin_dialect=None, fam=None) -> str:
@@ -233,6 +246,9 @@ def render_class(c, defined=None, strip_lazy=False, twin_dialect=None, fam=None)
         meta = {}
         if f.get("alias"):
             meta["alias"] = f["alias"]
+        if f.get("ser"):
+            meta["serialize"] = _Raw(f"_ser_{f['ser']}")
+            meta["deserialize"] = _Raw(f"_de_{f['ser']}")
         if "d" in f:
             dv = f["d"]
             if dv[0] in ("l", "m", "o"):
